@@ -877,7 +877,50 @@ class CallGraph:
                             self._callsites.setdefault(nm, []).append((f, n))
         return self._callsites.get(name, [])
 
-    def _param_callable_targets(self, pname, f: Func):
+    def _callable_candidates(self, arg, g: Func, depth):
+        """what `arg` (an argument expression in g) may denote as a callable -> (targets, complete)"""
+        r = self.resolve_callable(arg, g)
+        if r is not None:
+            if r[0] == "class":
+                return self._ctor(r[1]), True
+            if r[0] == "func":
+                return [r[1]], True
+            return [], True
+        if isinstance(arg, ast.Lambda):
+            return [], True
+        if isinstance(arg, ast.Name) and depth < 4:
+            if any(p.arg == arg.id for p in self._params_of(g)) and not self._assignments_to_name(g, arg.id):
+                pc = self._param_callable_targets(arg.id, g, depth + 1)   # handed through: ask g's callers
+                if pc is not None:
+                    return pc
+                return [], False
+            # the loop variable of `for a, b, T in TABLE` with TABLE a literal (or a local bound to one)
+            for n in own_nodes(g.node):
+                if isinstance(n, (ast.For, ast.comprehension)) and isinstance(n.target, (ast.Tuple, ast.List, ast.Name)):
+                    elts = n.target.elts if isinstance(n.target, (ast.Tuple, ast.List)) else [n.target]
+                    pos = [i for i, t in enumerate(elts) if isinstance(t, ast.Name) and t.id == arg.id]
+                    if not pos or len(self._assignments_to_name(g, arg.id)) != 1:
+                        continue
+                    table = n.iter
+                    if isinstance(table, ast.Name):
+                        rhs = [x for x in self._assignments_to_name(g, table.id)]
+                        table = rhs[0] if len(rhs) == 1 and isinstance(rhs[0], ast.AST) else None
+                    if not isinstance(table, (ast.Tuple, ast.List)):
+                        return [], False
+                    out, complete = [], True
+                    for row in table.elts:
+                        cell = row
+                        if isinstance(n.target, (ast.Tuple, ast.List)):
+                            if not (isinstance(row, (ast.Tuple, ast.List)) and len(row.elts) == len(elts)):
+                                return [], False
+                            cell = row.elts[pos[0]]
+                        ts, c = self._callable_candidates(cell, g, depth + 1)
+                        out += [t for t in ts if t not in out]
+                        complete = complete and c
+                    return out, complete
+        return [], False
+
+    def _param_callable_targets(self, pname, f: Func, depth=0):
         """`pname` is a parameter of f that is *called*: look at what the call sites of f pass."""
         ps = [p.arg for p in self._params_of(f)]
         if pname not in ps:
@@ -901,15 +944,9 @@ class CallGraph:
                 d = f.node.args.defaults
                 complete = False
                 continue
-            r = self.resolve_callable(arg, g)
-            if r is None:
-                if isinstance(arg, ast.Lambda):
-                    continue
-                complete = False
-            elif r[0] == "class":
-                targets += self._ctor(r[1])
-            elif r[0] == "func":
-                targets.append(r[1])
+            ts, c = self._callable_candidates(arg, g, depth)
+            targets += [t for t in ts if t not in targets]
+            complete = complete and c
         return (targets, complete)
 
     def _table_targets(self, fn, f: Func, depth=0):
@@ -932,6 +969,9 @@ class CallGraph:
                 if len(rhs) == 1 and isinstance(rhs[0], ast.AST) and not isinstance(rhs[0], ast.Name):
                     if root is fn:
                         return self._table_targets(rhs[0], f, depth + 1)
+                    if isinstance(rhs[0], ast.Attribute):
+                        # table = self.TABLE ; table[k](...)
+                        return self._table_targets(ast.Subscript(value=rhs[0], slice=ast.Constant(0), ctx=ast.Load()), f, depth + 1)
                     if isinstance(rhs[0], (ast.Dict, ast.List, ast.Tuple)) and not any(p.arg == root.id for p in self._params_of(f)):
                         expr, mod = rhs[0], f.module    # a local literal table of functions / classes
                     else:
@@ -972,8 +1012,11 @@ class CallGraph:
                     out.append(rr[1])
                 elif cls is not None and n.id in cls.methods and cls.methods[n.id] not in out:
                     out.append(cls.methods[n.id])   # a class-level table of the class's own functions
-            elif isinstance(n, ast.Constant) and isinstance(n.value, str) and cls is not None and n.value in cls.methods:
-                pass
+            elif isinstance(n, ast.Call) and ast.unparse(n.func) in ("methodcaller", "operator.methodcaller") and n.args \
+                    and isinstance(n.args[0], ast.Constant) and isinstance(n.args[0].value, str):
+                for m in self._methods_named(n.args[0].value, f):     # methodcaller("name")(obj) == obj.name()
+                    if m not in out:
+                        out.append(m)
         return out or None
 
     def resolve_call(self, call: ast.Call, f: Func):
@@ -1349,6 +1392,8 @@ class Bounds:
         self._locals_cache = {}
         self._fold_cache = {}
         self._setattr_busy = False
+        self._attr_busy = set()
+        self._attr_rec_hit = False
         self.loose_attrs = set()   # (id(cls), attr): bounds are an over-approximation (guards not understood)
         self.loose_hits = []       # appended whenever such bounds are handed out
 
@@ -1911,12 +1956,28 @@ class Bounds:
         raise-guards at the top level of __init__ that follow the last store."""
         key = (id(cls), attr, "bounds")
         if key in self._attr:
+            if key in self._attr_busy:
+                self._attr_rec_hit = True    # mutually dependent attributes: the caller re-evaluates once
             if (id(cls), attr) in self.loose_attrs:
                 self.loose_hits.append("%s.%s" % (cls.name, attr))
             return self._attr[key]
         self._attr[key] = TOP
+        self._attr_busy.add(key)
         before = len(self.loose_hits)
+        outer_hit = self._attr_rec_hit
+        self._attr_rec_hit = False
         r = self._attr_bounds(cls, attr, depth)
+        if self._attr_rec_hit and depth == 0:
+            # second pass: the attributes this one is compared with now have (first-pass) bounds
+            self._attr[key] = r
+            self.loose_attrs.discard((id(cls), attr))
+            del self.loose_hits[before:]
+            for k2 in [k for k in self._attr if len(k) == 3 and k[2] == "bounds" and k[0] == id(cls) and k != key and k not in self._attr_busy]:
+                self._attr.pop(k2)
+                self.loose_attrs.discard((k2[0], k2[1]))
+            r = self._attr_bounds(cls, attr, depth)
+        self._attr_rec_hit = outer_hit or (self._attr_rec_hit and depth > 0)
+        self._attr_busy.discard(key)
         if len(self.loose_hits) > before:
             self.loose_attrs.add((id(cls), attr))   # derived from loose bounds (property over a loose attribute ...)
         self._attr[key] = r
@@ -2053,11 +2114,16 @@ class Bounds:
         loose = [self._opaque_raise]
         # a rejecting condition over something that is not an attribute / constant (a local computed from the
         # attributes, a call ...) may constrain this attribute in a way that is not seen here
+        params = {p_.arg for p_ in self.cg._params_of(init)}
         for cons in exits[:64]:
             for test, truth in cons:
                 for n in ast.walk(test):
-                    if isinstance(n, ast.Call) or (isinstance(n, ast.Name) and n.id != sn and isinstance(self.fold(n, init), Unknown)):
-                        loose[0] = True
+                    if isinstance(n, ast.Name) and n.id != sn and n.id not in params and isinstance(self.fold(n, init), Unknown):
+                        loose[0] = True     # a local, possibly computed from the attributes
+                    if isinstance(n, ast.Call):
+                        parts = [n.func] + list(n.args) + [k.value for k in n.keywords]
+                        if any(isinstance(x, ast.Name) and x.id == sn for p_ in parts for x in ast.walk(p_)):
+                            loose[0] = True  # a call that sees the object
         is_attr = lambda x, a=attr: isinstance(x, ast.Attribute) and x.attr == a and isinstance(x.value, ast.Name) and x.value.id == sn
         mentions = lambda e: any(is_attr(x) for x in ast.walk(e))
 
@@ -2134,6 +2200,8 @@ class Bounds:
                         lo = lo + 1
                     elif ot is ast.NotEq:
                         pass
+                    elif ot in (ast.GtE, ast.Gt, ast.LtE, ast.Lt, ast.Eq):
+                        loose[0] = True   # the bound of the other side that would be needed is not known
                     else:
                         loose[0] = True
             result = (lo, hi) if result is None else iv_join(result, (lo, hi))
@@ -3248,9 +3316,33 @@ class _Run:
         r2 = _Run(self.sa, tgt)
         return r2._name_uses_inert(pname, tgt, depth)
 
-    def _counter_delta(self, name, value):
+    def _counter_delta(self, name, value, depth=0):
         """value assigned to counter `name`, as a delta interval relative to its old value (None: unknown)"""
         isv = lambda x: isinstance(x, ast.Name) and x.id == name
+        # `v = S.seek(E)` (absolute) returns E;  `v = other` with other := v + ... defined just before
+        if isinstance(value, ast.Call) and isinstance(value.func, ast.Attribute) and value.func.attr == "seek" and len(value.args) == 1 \
+                and self.sa.is_stream_recv(value.func.value, self.f) and depth < 3:
+            return self._counter_delta(name, value.args[0], depth + 1)
+        if isinstance(value, ast.Name) and not isv(value) and depth < 3 and parent(value) is not None:
+            dd = self.cg.dominating_def(value, self.f)
+            if dd is not None:
+                return self._counter_delta(name, dd, depth + 1)
+            return None
+        # a sum in which the counter occurs exactly once:  v + a + b
+        if isinstance(value, ast.BinOp) and isinstance(value.op, ast.Add):
+            terms, stack = [], [value]
+            while stack:
+                x = stack.pop()
+                if isinstance(x, ast.BinOp) and isinstance(x.op, ast.Add):
+                    stack += [x.left, x.right]
+                else:
+                    terms.append(x)
+            if sum(1 for t in terms if isv(t)) == 1 and not any(isinstance(n, ast.Name) and n.id == name for t in terms if not isv(t) for n in ast.walk(t)):
+                d = ZERO
+                for t in terms:
+                    if not isv(t):
+                        d = iv_add(d, self._int(t))
+                return d
         if isinstance(value, ast.BinOp):
             if isinstance(value.op, ast.Add):
                 if isv(value.left):
